@@ -82,6 +82,7 @@ func main() {
 				}
 			}
 			needSched := false
+			goNames := map[*ast.GoStmt]string{}
 			chanOK := base != "metrics.go"
 			fixExpr := func(e ast.Expr) ast.Expr {
 				if u, ok := e.(*ast.UnaryExpr); ok && u.Op == token.ARROW && chanOK {
@@ -95,8 +96,11 @@ func main() {
 					switch s := st.(type) {
 					case *ast.GoStmt:
 						needSched = true
-						pos := fset.Position(s.Pos())
-						name := fmt.Sprintf("%s:%d", base, pos.Line)
+						name := goNames[s]
+						if name == "" {
+							pos := fset.Position(s.Pos())
+							name = fmt.Sprintf("%s:%d", base, pos.Line)
+						}
 						var pre []ast.Stmt
 						call := s.Call
 						var args []ast.Expr
@@ -132,6 +136,30 @@ func main() {
 						}
 					}
 				}
+			}
+			// thread names: `go x.f(..)` -> "f"; `go func(){..}()` -> "<EnclosingFunc>#<k>"
+			for _, d := range af.Decls {
+				fd, ok := d.(*ast.FuncDecl)
+				if !ok || fd.Body == nil {
+					continue
+				}
+				k := 0
+				ast.Inspect(fd.Body, func(n ast.Node) bool {
+					g, ok := n.(*ast.GoStmt)
+					if !ok {
+						return true
+					}
+					switch f := g.Call.Fun.(type) {
+					case *ast.FuncLit:
+						k++
+						goNames[g] = fmt.Sprintf("%s#%d", fd.Name.Name, k)
+					case *ast.SelectorExpr:
+						goNames[g] = f.Sel.Name
+					case *ast.Ident:
+						goNames[g] = f.Name
+					}
+					return true
+				})
 			}
 			ast.Inspect(af, func(n ast.Node) bool {
 				switch b := n.(type) {
